@@ -251,6 +251,23 @@ let handle (fields : string list) : string =
       | Backoff -> if only_oc then None else Some "B"
       | ChOpen -> Some "O"
       | ChClose c -> Some ("C" ^ string_of_int (int_of_nat c))) tr)
+  | ["hb"; disable; dname; systype; ap; ver] ->
+    let c = hbcfg_of (b01 disable) (get_dialect dname) (n_of_string systype) (n_of_string ap) (n_of_string ver) in
+    (match hb_ticks c (S O) with
+     | [] -> "off"
+     | m :: _ -> "on " ^ show_value m)
+  | ["srobs"; enable; dname; freq; nchan; ops] ->
+    let cfg = srcfg_of (b01 enable) (get_dialect dname) (n_of_string freq) in
+    let ins = List.map (fun t -> match split ':' t with
+      | ["H"; now; ch; sys; comp; ap] -> InHb (n_of_string now, ((n_of_string ch, n_of_string sys), n_of_string comp), n_of_string ap)
+      | ["O"; ch] -> InOther (n_of_string ch)
+      | ["T"; now] -> InTick (n_of_string now)
+      | _ -> failwith ("bad srin " ^ t)) (split ' ' ops) in
+    String.concat " ; " (List.init (int_of_string nchan) (fun c ->
+      let (wire, evs) = sr_observe cfg (n_of_int c) ins in
+      Printf.sprintf "wire=%s ev=%s"
+        (String.concat "|" (List.map show_value wire))
+        (String.concat " " (List.map (function EvReq (s, k) -> "S" ^ string_of_n s ^ "." ^ string_of_n k | EvFrame -> "F") evs))))
   | ["tcalls"; ops] ->
     let os = List.map (fun t -> if t = "R" then IoRead else IoWrite) (split ' ' ops) in
     String.concat " " (List.map (function SetReadDeadline -> "SR" | SetWriteDeadline -> "SW" | DoRead -> "R" | DoWrite -> "W") (timed_calls os))
